@@ -392,6 +392,42 @@ def rule_result_provenance(ctx: Ctx, rel: str, q: str, loop_required: bool) -> N
 TWO_QUBIT_CTORS = {"CNOT", "CZ", "MeasurementCNOTandReset", "ClassicalCNOT", "ClassicalCZ", "ParameterizedControlledRotationQubit"}
 
 
+def _labelled_before_insertion(m, fn, stmts, v: str, depth: int, labelled: bool = False) -> str:
+    """'ok' | 'unlabelled' | 'none': walk the statements in order; `v.add_labels('Fixed')` sets the flag, `<circuit>.add(v)` /
+    `.insert_at(v, ...)` ends the walk.  A call that hands `v` to a helper of the same class / module continues inside the helper
+    (with the helper's parameter name), so a refactoring that moves the edge lookup and the insertion into a helper is followed."""
+    for s2 in stmts:
+        t2 = norm(s2)
+        if t2.startswith(f"{v}.add_labels(") and "'Fixed'" in t2:
+            labelled = True
+            continue
+        if not (isinstance(s2, ast.Expr) and isinstance(s2.value, ast.Call)):
+            continue
+        c2 = s2.value
+        if call_attr(c2) in ("add", "insert_at") and c2.args and norm(c2.args[0]) == v:
+            return "ok" if labelled else "unlabelled"
+        pos = [k for k, a in enumerate(c2.args) if norm(a) == v]
+        kw = [k.arg for k in c2.keywords if norm(k.value) == v]
+        if (pos or kw) and depth < 3:
+            helper = None
+            if isinstance(c2.func, ast.Attribute) and norm(c2.func.value) == "self":
+                cls_ = parent(fn)
+                if isinstance(cls_, ast.ClassDef):
+                    helper = next((f for f in cls_.body if isinstance(f, ast.FunctionDef) and f.name == c2.func.attr), None)
+                off = 1
+            elif isinstance(c2.func, ast.Name):
+                helper = m.find(c2.func.id)
+                off = 0
+            if isinstance(helper, ast.FunctionDef):
+                ps = func_params(helper)
+                pv = kw[0] if kw else (ps[pos[0] + off] if pos[0] + off < len(ps) else None)
+                if pv is not None:
+                    r = _labelled_before_insertion(m, helper, helper.body, pv, depth + 1, labelled)
+                    if r != "none":
+                        return r
+    return "none"
+
+
 def rule_twoqubit(ctx: Ctx) -> None:
     """own.twoqubit: every two-qubit operation built in graphiq/solvers/ is controlled by an emitter, and a photon target
     is only used by emission CNOTs / measure-and-reset; typestate.fixed: those carry the 'Fixed' label before insertion."""
@@ -423,16 +459,7 @@ def rule_twoqubit(ctx: Ctx) -> None:
                         v = st.targets[0].id
                         body = parent(st).body
                         i = body.index(st)
-                        labelled = False
-                        ok = False
-                        for s2 in body[i + 1:]:
-                            t2 = norm(s2)
-                            if t2.startswith(f"{v}.add_labels(") and "'Fixed'" in t2:
-                                labelled = True
-                            if isinstance(s2, ast.Expr) and isinstance(s2.value, ast.Call) and call_attr(s2.value) in ("add", "insert_at") \
-                                    and s2.value.args and norm(s2.value.args[0]) == v:
-                                ok = labelled
-                                break
+                        ok = _labelled_before_insertion(m, fn, body[i + 1:], v, 0) == "ok"
                         # add_measurement_cnot_and_reset is an optional move: its gate is removable by design
                         if ok:
                             ctx.ok("typestate.fixed", m, st, what=f"{qualname(fn)}: labelled Fixed before insertion")
@@ -571,6 +598,16 @@ def rule_frontinsert(ctx: Ctx) -> None:
     for h in INSERT_HELPERS:
         fn = repo.anchor(TRS, f"TimeReversedSolver.{h}")
         ctx.touch(m, fn)
+        if not any(call_attr(c) == "insert_at" for c in calls_in(fn)):
+            # the edge lookup and the insertion may live in a shared helper of the class: judge the helper's body
+            cls_ = parent(fn)
+            for c in calls_in(fn):
+                if isinstance(c.func, ast.Attribute) and norm(c.func.value) == "self" and isinstance(cls_, ast.ClassDef):
+                    hf = next((f for f in cls_.body if isinstance(f, ast.FunctionDef) and f.name == c.func.attr), None)
+                    if hf is not None and any(call_attr(c2) == "insert_at" for c2 in calls_in(hf)):
+                        fn = hf
+                        ctx.touch(m, fn)
+                        break
         edge_vars: Dict[str, bool] = {}
         for n in ast.walk(fn):
             if isinstance(n, ast.Assign) and isinstance(n.value, ast.Call) and call_attr(n.value) == "out_edges":
